@@ -23,8 +23,9 @@ Verdict(r) ==
   ELSE LET L == LenOf([full |-> r.lc.full, extra |-> r.lc.extra])
            t == TamperOf(r)
            sc == Concrete(ScriptOf(r), L)
-           pred == Run(r.path, L, t, sc)
-           tags == TagsOf(r.path, L, t, sc) IN
+           e == Exec(r.path, L, t, sc)
+           pred == e.rs
+           tags == e.tags IN
        IF Logged(r) # pred \/ r.seekable # (r.path = "seek") \/ r.leak
        THEN [v |-> "mismatch", tag |-> "", pred |-> pred]
        ELSE IF ~PropC16(t, sc, Logged(r))
